@@ -478,14 +478,6 @@ theorem nt_tab {cfg : Cfg} {P : Int → Prop} {g : Option (Int × Int × Int)} {
 theorem find_upd_none (s : State) (u : Nat) (f : Module → Module) (hu : ∀ m, (f m).uid = m.uid) (v : Nat)
     (h : s.find v = none) : (s.upd u f).find v = none := by rw [find_upd s u v f hu, h]; rfl
 
-theorem mem_setAdd' (l : List Nat) (u v : Nat) (h : v ∈ setAdd l u) : v ∈ l ∨ v = u := by
-  unfold setAdd at h
-  split at h
-  · exact Or.inl h
-  · rcases List.mem_append.mp h with x | x
-    · exact Or.inl x
-    · exact Or.inr (by simpa using x)
-
 section frames
 variable {cfg : Cfg} (ok : CfgOK cfg) {P : Int → Prop} {g : Option (Int × Int × Int)}
 include ok
@@ -517,7 +509,7 @@ theorem nt_connect (hP : ∀ d, P d) (s : State) (u : Nat) (hu : u ≠ 0) (hd : 
           · refine hl.trans (nt_tab u hu (Or.inl hP) (fun h => find_upd_none s2 u (fun m => { m with connected := true }) (fun _ => rfl) 0 h) (fun _ _ h => Or.inl h) (fun v h => ?_) rfl)
             dsimp only at h
             split at h
-            · exact mem_setAdd' _ _ _ h
+            · exact (mem_setAdd _ _ _).mp h
             · exact Or.inl h
       · split
         · exact refuse h1
@@ -527,7 +519,7 @@ theorem nt_connect (hP : ∀ d, P d) (s : State) (u : Nat) (hu : u ≠ 0) (hd : 
           refine h2.trans (nt_tab u hu (Or.inl hP) (fun h => find_upd_none _ u (fun m => { m with modId := id, connected := true }) (fun _ => rfl) 0 h) (fun _ _ h => Or.inl h) (fun v h => ?_) rfl)
           dsimp only at h
           split at h
-          · exact mem_setAdd' _ _ _ h
+          · exact (mem_setAdd _ _ _).mp h
           · exact Or.inl h
 
 theorem nt_addSub (s : State) (u : Nat) (hu : u ≠ 0) (t : Int) (m : Module) (hm : s.find u = some m) :
